@@ -31,12 +31,19 @@ func capitalizeFirst(s string) string {
 
 // EvaluateExpression evaluates an expression and returns its value
 func (i *Interpreter) EvaluateExpression(expr Expr, env *Environment) (interface{}, error) {
-	depth := atomic.AddInt64(&i.evalDepth, 1)
+	// The limit bounds the recursion of one activation (see Environment.depth).
+	// Counting on the interpreter alone made concurrent requests add up: a
+	// few moderately deep requests in flight failed each other.
+	counter := &i.evalDepth
+	if env != nil && env.depth != nil {
+		counter = env.depth
+	}
+	depth := atomic.AddInt64(counter, 1)
 	if depth > maxEvalDepth {
-		atomic.AddInt64(&i.evalDepth, -1)
+		atomic.AddInt64(counter, -1)
 		return nil, fmt.Errorf("maximum evaluation depth exceeded (%d levels)", maxEvalDepth)
 	}
-	defer atomic.AddInt64(&i.evalDepth, -1)
+	defer atomic.AddInt64(counter, -1)
 	switch e := expr.(type) {
 	case LiteralExpr:
 		return i.evaluateLiteral(e.Value)
